@@ -20,7 +20,11 @@ Local Open Scope Z_scope.
 Inductive pref :=
 | PKnown (i : nat)        (* a registered, set parameter: index into the slot table *)
 | PNoSubspace             (* a subspace name that does not exist *)
-| PNoKey.                 (* an existing subspace, a key that is not registered *)
+| PNoKey.                 (* an existing subspace and a key on which Subspace.Update panics: a key that is
+                             not registered (a string panic) or - for permissions without sub-parameter
+                             rules only - a registered scalar Int / Dec parameter proposed as JSON null
+                             (cdp/SurplusThreshold, hard/MinimumBorrowUSDValue: a nil dereference in the
+                             registered validator, a runtime-error panic) *)
 
 Definition pref_eqb (a b : pref) : bool :=
   match a, b with
@@ -395,7 +399,7 @@ Fixpoint run_changes (sls : list slot) (ps : list json) (chs : list (pref * opti
   | (p, v) :: r =>
       match p with
       | PNoSubspace => Err
-      | PNoKey => Panic                      (* Subspace.Update: "parameter %s not registered" *)
+      | PNoKey => Panic                      (* Subspace.Update: "parameter %s not registered", or the validator's nil dereference *)
       | PKnown i =>
           match nth_error sls i, nth_error ps i with
           | Some sl, Some cur =>
@@ -486,7 +490,7 @@ Record committee := mkCom {
   c_members : list nat;
   c_perms : list permission;
   c_threshold : Z;             (* Dec mantissa *)
-  c_duration : Z;              (* seconds *)
+  c_duration : Z;              (* time.Duration: nanoseconds *)
   c_tally : tally_opt
 }.
 
@@ -505,7 +509,9 @@ Record state := mkState {
   next_id : nat;
   bals : list Z;               (* tally-denom balance per account *)
   supply : Z;                  (* tally-denom supply *)
-  now : Z;                     (* block time, seconds *)
+  now : Z;                     (* block time: an instant in nanoseconds (the driver counts from genesis);
+                                  deadlines are instants too and are compared as such (time.Before),
+                                  never by their whole seconds *)
   height : Z;                  (* block height *)
   plan : Z;                    (* height of the scheduled upgrade plan, 0 = none *)
   enacted : list Z             (* how often each x/community handler ran for good:
@@ -551,6 +557,11 @@ Definition bal_of (s : state) (a : nat) : Z := nth a (bals s) 0.
 (* GetMemberCommitteeProposalResult / GetTokenCommitteeProposalResult *)
 Definition sum_votes (s : state) (f : vote -> bool) (vs : list vote) : Z :=
   zsum (map (fun v => if f v then dec_of_int (bal_of s (v_voter v)) else 0) vs).
+
+(* the whole-token weight of the votes selected by [f] (specification side: the tally
+   restated in integers, see token_tally_exact) *)
+Definition weight (s : state) (f : vote -> bool) (vs : list vote) : Z :=
+  zsum (map (fun v => if f v then bal_of s (v_voter v) else 0) vs).
 
 Definition tally (s : state) (c : committee) (pid : nat) : bool :=
   let vs := votes_of s pid in
